@@ -207,6 +207,43 @@ PLANS = {
         assumptions=["oracles: naive bit scan, std::slice::sort_by_key (stable)", "only a sample of the 2^64 / 2^128 words is covered; the lookup table and every bit position / shift are covered exhaustively"],
         gates=dict(rel=dict(byte_table_positions_covered=8)),
     ),
+    "C18": dict(
+        bin="worker18",
+        lanes=dict(quick=[("rel", N), ("tsan", N), ("miri", 8)],
+                   thorough=[("rel", N), ("tsan", N), ("miri", N)]),
+        env=dict(quick=dict(miri={"MIRIFLAGS": "-Zmiri-many-seeds=0..4"}),
+                 thorough=dict(miri={"MIRIFLAGS": "-Zmiri-many-seeds=0..32"})),
+        rule="(1) auto traits: worker18 is the only binary whose compilation requires Send + Sync of every public structure (10 tree aliases x 6 "
+             "element types, bit/quad vectors, rank/select vectors, DArray, iterators); it is built per lane, a failure with E0277 on these bounds is "
+             "the violation. (2) purity: for each structure a fixed seeded query plan (get/rank/select/rank_prefetch incl. invalid arguments) is "
+             "evaluated twice (forwards, backwards), answers identical, serialized bytes identical before/after; rank queries interleaved over four "
+             "live trees against the model. (3) concurrency: T in {2..16} threads share &v, start on a barrier and evaluate the same hot queries "
+             "with seeded yield/spin jitter for several rounds; every answer is compared with the single-threaded answer (itself checked against "
+             "the model), serialized bytes compared afterwards. Lanes: native (scale), ThreadSanitizer with an instrumented std (data races, exit "
+             "66), Miri with several scheduler seeds (data-race detector + schedule randomisation) on small structures. Recorded: max in-flight "
+             "threads, distinct completion orders.",
+        assumptions=["schedules are those produced by 16 cores, TSan's and Miri's schedulers, not an enumeration",
+                     "no delay is injected inside the library: queries have no suspension points",
+                     "the Send + Sync half is a compile-time observation made while building the runtime harness"],
+        technique="thread-sharing stress with single-thread oracle under ThreadSanitizer and Miri (many seeds); compile-time Send+Sync probe; purity via serialized-form comparison",
+        class_per_lane=True,
+        gates=dict(rel=dict(max_in_flight_threads=2, types_asserted_send_sync=73)),
+        timeout=dict(quick=1500, thorough=6 * 3600),
+    ),
+    "C19": dict(
+        lanes=dict(quick=[("rel", N), ("dbg", N)],
+                   thorough=[("rel", N), ("dbg", N), ("miri", N)]),
+        rule="cases = (10 tree aliases x 6 element types x a rotating share of the input catalogues): build through new(&mut [T]), From<Vec<T>> and "
+             "collect; the three values answer the same seeded battery identically (digest) and, for the non-Huffman trees, compare equal; Clone == "
+             "original (both directions) and answers identically; mutated neighbours (one element changed, last element changed, two different elements "
+             "swapped, last element removed, one appended, maximum replaced by a larger symbol) built through a random path must compare UNEQUAL in both "
+             "directions. Element widths: the same numbers in u8/u16/u32/u64/usize/u128 containers (three families, incl. values >= 2^32 for "
+             "u64/usize/u128) answer the valid-argument battery identically. RSQVector256/512: new(u8)/new(u64)/From<QVector>/collect ==; RSNarrow/"
+             "RSWide: new/From/via BitVectorMut ==; DArray<false/true>: new/collect<bool>/collect<usize> ==; BitVector/BitVectorMut: bools vs positions "
+             "==; neighbours (bit flipped, last bit flipped/removed, zero appended) !=.",
+        assumptions=COMMON_ASSUMPTIONS,
+        gates=dict(rel=dict(width_families_compared=30)),
+    ),
 }
 
 
